@@ -270,7 +270,7 @@ PROPS['C11'] = {
     'module': 'RQ.Props.C11',
     'theorems': ['RQ.Parse.C11_fuel', 'RQ.Parse.C11_noMatch', 'RQ.Parse.C11_wf', 'RQ.Parse.C11_alloc', 'RQ.Parse.C11_scan_bounded', 'RQ.Parse.C11_strip_bounded', 'RQ.Parse.C11_strip_huge_refused'],
     'verdict': 'C11',
-    'jobs': [{'quick': ['parse', 'seed={seed}', 'n=60000'], 'thorough': ['parse', 'seed={seed}', 'n=1500000', 'huge=40']},
+    'jobs': [{'quick': ['parse', 'seed={seed}', 'n=60000'], 'thorough': ['parse', 'seed={seed}', 'n=1500000', 'huge=4']},
              {'quick': ['series', 'seed={seed}', 'n=20000'], 'thorough': ['series', 'seed={seed}', 'n=400000']}] +
             push_jobs(['evil=70'], ['evil=70', 'inv=2'], nq=4000, nt=100000),
     'nontrivial': lambda l: True,
@@ -291,7 +291,7 @@ PROPS['C11'] = {
 PROPS['C12'] = {
     'theorems': ['RQ.Write.C12_partial', 'RQ.Write.C12_fixpoint', 'RQ.Write.C12_full_false'],
     'verdict': 'C12',
-    'jobs': [{'quick': ['parse', 'seed={seed}', 'n=60000'], 'thorough': ['parse', 'seed={seed}', 'n=1500000', 'huge=40']}],
+    'jobs': [{'quick': ['parse', 'seed={seed}', 'n=60000'], 'thorough': ['parse', 'seed={seed}', 'n=1500000', 'huge=4']}],
     'nontrivial': lambda l: '|=>|OK ' in l and 'hunks=[' in l,
     'histogram': lambda c, d: ['impl=' + c.split('|=>|')[-1].split(' ')[0][:12], 'C12=' + (field(d, 'C12') or '?').split(':')[0]],
     'rule': "parse engine as for C11; every accepted input is written with the real UnifiedPatchWriter, parsed again (strip 0) and "
